@@ -248,3 +248,51 @@ flush_backtrace = ctl_unit(
     'LoggerImpl::flush_backtrace: request retried until accepted')
 
 UNITS = [should_log_rt, should_log_ct, te_level, encode_header, log_statement, flush_log, init_backtrace, flush_backtrace]
+
+# ------------------------------------------------------------------------------------------ TransitEvent::copy_to / move assignment
+TE_STRUCT = dict(c='TEf', header=TH, cls='TransitEvent',
+                 typemap={'field:macro_metadata': 'void const*', 'field:logger_base': 'void*', 'field:flush_flag': 'void*', 'field:formatted_msg': 'FBuf*', 'field:named_args': 'NAvec*', 'std::unique_ptr<FormatBuffer>': 'FBuf*', 'std::unique_ptr<std::vector<std::pair<std::string, std::string>>>': 'NAvec*',
+                          'std::atomic<bool>*': 'void*', 'LogLevel': 'LogLevel'})
+TEF_PRELUDE = ENUMS + r'''
+typedef struct FBuf { size_t g_content; size_t g_size; } FBuf;     /* the formatted message: content id + length (0 = empty) */
+typedef struct NAvec { size_t g_content; } NAvec;                  /* the key / value pairs: content id */
+@STRUCT:TEf@
+NAvec g_new_na; size_t g_na_copies;
+static inline size_t FB_size(FBuf* b) { return b->g_size; }
+static inline void FB_reserve(FBuf* b, size_t n) { (void)b; (void)n; }
+/* fmt::basic_memory_buffer::append(other): the text of `other` is added BEHIND what the buffer already holds */
+static inline void FB_append(FBuf* b, FBuf* o) { if (b->g_size == 0) { b->g_content = o->g_content; b->g_size = o->g_size; } else { b->g_content = 0; b->g_size += o->g_size; } }
+static inline NAvec* NA_copy(NAvec* src) { g_na_copies++; g_new_na.g_content = src->g_content; return &g_new_na; }
+'''
+te_copy = dict(
+    name='TE.copy_to', primary='C18', props={'C18'}, kind='L',
+    desc='TransitEvent::copy_to (how a backtrace statement is stored): the copy carries the same timestamp, metadata, logger, level and text, and its own copy of the key / value pairs',
+    structs=[TE_STRUCT], prelude=TEF_PRELUDE, enforce='TE_copy_to', replace=[],
+    funcs=[dict(src=dict(header=TH, cls='TransitEvent', name='copy_to'), src_params=['other'], cfun='TE_copy_to', sig='void TE_copy_to(TEf* self, TEf* other)', struct='TEf', cls_c='TE',
+                methods={'reserve': 'FB_reserve', 'size': 'FB_size'},
+                pre_rules=[(r'\bother\.', 'other->'), (r'other->formatted_msg->append\(\*formatted_msg\)\s*;', 'FB_append(other->formatted_msg, formatted_msg);'),
+                           (r'std::make_unique<std::vector<std::pair<std::string,\s*std::string>>>\(\*named_args\)', 'NA_copy(named_args)')],
+                contract=r'''
+__CPROVER_requires(__CPROVER_is_fresh(self, sizeof(*self)) && __CPROVER_is_fresh(other, sizeof(*other)) && __CPROVER_is_fresh(self->formatted_msg, sizeof(FBuf)) && __CPROVER_is_fresh(other->formatted_msg, sizeof(FBuf)))
+__CPROVER_requires((self->named_args == NULL || __CPROVER_is_fresh(self->named_args, sizeof(NAvec))) && other->named_args == NULL && other->formatted_msg->g_size == 0 && self->formatted_msg->g_content != 0 && g_na_copies == 0)
+__CPROVER_assigns(__CPROVER_object_whole(other), __CPROVER_object_whole(other->formatted_msg), g_na_copies, __CPROVER_object_whole(&g_new_na))
+__CPROVER_ensures(other->timestamp == self->timestamp && other->macro_metadata == self->macro_metadata && other->logger_base == self->logger_base && other->dynamic_log_level == self->dynamic_log_level && other->flush_flag == self->flush_flag) /*@ C18 "a stored backtrace statement keeps its timestamp, source metadata, logger and level" */
+__CPROVER_ensures(other->formatted_msg->g_content == self->formatted_msg->g_content && other->formatted_msg->g_size == self->formatted_msg->g_size && other->formatted_msg != self->formatted_msg) /*@ C18 "it keeps its text, in a buffer of its own (the original slot is reused for the next statement)" */
+__CPROVER_ensures(self->named_args == NULL ? other->named_args == NULL : (other->named_args != NULL && other->named_args != self->named_args && other->named_args->g_content == self->named_args->g_content && g_na_copies == 1)) /*@ C18,C19 "it keeps its key / value pairs, as a copy of its own" */
+''')],
+    harness='  TEf* a; TEf* b; TE_copy_to(a, b);',
+    dropped=['texts and pair lists as content ids', 'fmt buffer reserve'], trusted=['the destination is a freshly constructed TransitEvent (empty buffer, no pairs), as at the one call site in _process_transit_event'], min_obligations=10)
+te_move = dict(
+    name='TE.move_assign', primary='C03', props={'C03', 'C18'}, kind='L',
+    desc='TransitEvent move assignment (how TransitEventBuffer::_expand and BacktraceStorage move events): every field travels with the event',
+    structs=[TE_STRUCT], prelude=TEF_PRELUDE, enforce='TE_move_assign', replace=[],
+    funcs=[dict(src=dict(header=TH, cls='TransitEvent', name='operator='), src_params=['other'], cfun='TE_move_assign', sig='void TE_move_assign(TEf* self, TEf* other)', struct='TEf', cls_c='TE',
+                pre_rules=[(r'\bother\.', 'other->'), (r'this\s*!=\s*&other', 'self != other'), (r'std::move\((other->\w+)\)', r'\1'), (r'return\s+\*this\s*;', 'return;')],
+                contract=r'''
+__CPROVER_requires(__CPROVER_is_fresh(self, sizeof(*self)) && __CPROVER_is_fresh(other, sizeof(*other)))
+__CPROVER_assigns(__CPROVER_object_whole(self))
+__CPROVER_ensures(self->timestamp == other->timestamp && self->macro_metadata == other->macro_metadata && self->logger_base == other->logger_base && self->formatted_msg == other->formatted_msg && self->named_args == other->named_args && self->flush_flag == other->flush_flag && self->dynamic_log_level == other->dynamic_log_level) /*@ C03,C18 "a moved event is the same statement: timestamp, metadata, logger, text, pairs, flush flag and level all travel with it" */
+''')],
+    harness='  TEf* a; TEf* b; TE_move_assign(a, b);',
+    dropped=['unique_ptr move as pointer copy (the moved-from event is not read again)'], trusted=[], min_obligations=5)
+UNITS += [te_copy, te_move]
